@@ -48,6 +48,9 @@ type vhwsCase struct {
 	// writes while the server does not read at all for StallMs, then reads everything
 	StallMs    int `json:"stall_ms"`
 	StallTotal int `json:"stall_total"`
+	// StallClose: while the writer is blocked by the stalled reader (after 500 ms) the writing side calls Close: Close returns
+	// promptly and releases the blocked Write
+	StallClose bool `json:"stall_close"`
 }
 
 type vhwsInput struct {
@@ -83,6 +86,9 @@ type vhwsStallOut struct {
 	ReadErr  string `json:"read_err"`
 	Intact   bool   `json:"intact"`
 	Ms       int64  `json:"ms"`
+	CloseReturned bool  `json:"close_returned"`
+	CloseMs       int64 `json:"close_ms"`
+	WriteReleased bool  `json:"write_released"`
 }
 
 type vhwsCaseOut struct {
@@ -376,6 +382,41 @@ func vhwsStall(cli, srv *Conn, stallMs, total int) *vhwsStallOut {
 	return res
 }
 
+// vhwsStallClose: the reader never reads; the writer blocks in Write; Close on the writing side must come back and unblock it
+func vhwsStallClose(cli, srv *Conn, total int) *vhwsStallOut {
+	res := &vhwsStallOut{Intact: true}
+	wdone := make(chan struct{})
+	go func() {
+		defer close(wdone)
+		chunk := make([]byte, 256*1024)
+		for res.Written < total {
+			m, err := cli.Write(chunk)
+			res.Written += m
+			if err != nil {
+				res.WriteErr = err.Error()
+				return
+			}
+		}
+	}()
+	time.Sleep(500 * time.Millisecond) // the socket buffers are full by now, the writer is blocked
+	cdone := make(chan struct{})
+	t0 := time.Now()
+	go func() { _ = cli.Close(); close(cdone) }()
+	select {
+	case <-cdone:
+		res.CloseReturned = true
+	case <-time.After(4 * time.Second):
+	}
+	res.CloseMs = time.Since(t0).Milliseconds()
+	select {
+	case <-wdone:
+		res.WriteReleased = true
+	case <-time.After(4 * time.Second):
+	}
+	_ = srv.Close()
+	return res
+}
+
 func vhwsRunCase(c vhwsCase) (out vhwsCaseOut) {
 	out.ID = c.ID
 	for d := 0; d < 2; d++ {
@@ -416,6 +457,10 @@ func vhwsRunCase(c vhwsCase) (out vhwsCaseOut) {
 	defer sconn.Close()
 
 	if c.StallMs > 0 {
+		if c.StallClose {
+			out.Stall = vhwsStallClose(cli, sconn, c.StallTotal)
+			return
+		}
 		out.Stall = vhwsStall(cli, sconn, c.StallMs, c.StallTotal)
 		return
 	}
